@@ -93,12 +93,17 @@ type c16Peer struct {
 	ticks chan uint64
 }
 
-func c16NewIdentity(seedByte byte) *identity {
+func c16KeyBytes(seedByte byte) []byte {
 	kb := make([]byte, 32)
 	for i := range kb {
 		kb[i] = seedByte + byte(i)*3
 	}
 	kb[0] = 0x11 // keep the scalar inside the group order
+	return kb
+}
+
+func c16NewIdentity(seedByte byte) *identity {
+	kb := c16KeyBytes(seedByte)
 	priv, err := libp2pcrypto.UnmarshalSecp256k1PrivateKey(kb)
 	if err != nil {
 		panic(err)
@@ -430,6 +435,9 @@ func c16Run(t *testing.T, r *verifsim.Run) {
 				if h.peer == to && !h.cancelReq && h.cancelAt == 0 {
 					h.delivered[[2]uint64{uint64(e.from), e.seqno}] = true
 				}
+				if h.peer == to && h.seen[[2]uint64{uint64(e.from), e.seqno}] {
+					r.Probe("duplicate-copy-reached-handler-that-saw-it")
+				}
 			}
 			msg := func() *pubsub.Message { return c16PubsubMessage(peers[e.from].ident.id, e.data) }
 			if copies == 1 {
@@ -461,6 +469,11 @@ func c16Run(t *testing.T, r *verifsim.Run) {
 			r.Logf("release %s", p.Label)
 		case "cancel-handler":
 			h := liveH[tp.Choose("cancel-handler", len(liveH))]
+			for _, p := range parked {
+				if p.Label[:3] == fmt.Sprintf("h%02d", h.id) {
+					r.Probe("cancel-while-handler-parked")
+				}
+			}
 			h.cancel()
 			h.cancelReq = true
 			synctest.Wait()
